@@ -52,6 +52,7 @@ FINDING_CLASSES = {1: "nested-target-order", 2: "source-under-group", 3: "nested
 # variable is for trying a repaired worktree without editing this file.
 JUDGE = os.environ.get("C16_JUDGE", "judge_fixed")   # both repairs landed: /repo f5bd9a3, 7dc0000
 LABELS = "abcdefg"
+ATTRS = ["at", "at", "an", "an", "az", "ae", "af"]
 
 
 # ---------------------------------------------------------------------------------------------------------------------
@@ -221,18 +222,26 @@ def make_case(decls, seq, units, rng):
     prefix = {u: p for u, p, _ in units}
     links = []
     for k, (s, u) in enumerate(seq):
-        attr = rng.random() < 0.5
-        links.append({"src": [s + ".at" if attr else s], "tgt": prefix[u] + "l%d" % k, "id": k, "fn": rng.random() < 0.4,
-                      "_u": u})
+        # whole object, or an attribute: the marker `at`, or one holding None / 0 / "" / False (an, az, ae, af)
+        attr = rng.choice(ATTRS) if rng.random() < 0.6 else None
+        links.append({"src": [s + "." + attr if attr else s], "tgt": prefix[u] + "l%d" % k, "id": k, "fn": rng.random() < 0.4,
+                      "_u": u, "_s": s})
     # now and then merge two links with the same target object into one two-source link (needs a compute_fn)
     if len(links) >= 2 and rng.random() < 0.2:
         i, j = sorted(rng.sample(range(len(links)), 2))
-        if links[i]["_u"] == links[j]["_u"] and links[i]["src"][0].split(".at")[0] != links[j]["src"][0].split(".at")[0]:
+        if links[i]["_u"] == links[j]["_u"] and (links[i]["_s"] != links[j]["_s"] or links[i]["src"] != links[j]["src"]):
             links[i]["src"] += links[j]["src"]
             links[i]["fn"] = True
             del links[j]
+    # now and then a second source from the SAME component (another attribute, or the whole object): compute_fn(s.x, s.y)
     for l in links:
-        del l["_u"]
+        if len(l["src"]) == 1 and rng.random() < 0.15:
+            other = rng.choice([a for a in ATTRS + [None] if l["src"][0] != (l["_s"] + "." + a if a else l["_s"])])
+            extra = l["_s"] + "." + other if other else l["_s"]
+            l["src"] = [l["src"][0], extra] if rng.random() < 0.5 else [extra, l["src"][0]]
+            l["fn"] = True
+    for l in links:
+        del l["_u"], l["_s"]
     return {"kind": "links", "decls": decls, "links": links}
 
 
@@ -354,7 +363,7 @@ def canon_link_obs(o):
 
 
 def base_ok(v):
-    return v[0] in ("obj", "attr", "ns")
+    return v[0] in ("obj", "attr", "ns", "lit")
 
 
 def value_ok(v):
@@ -390,6 +399,8 @@ def g_base(v):
         return "BObj %s" % g_str(v[1])
     if v[0] == "attr":
         return "BAttr %s" % g_str(v[1])
+    if v[0] == "lit":
+        return "BLit %d%%N" % v[1]
     return "BNs (@nil N)"
 
 
